@@ -487,8 +487,8 @@ class BaseCollection(BaseDisplayRepr):
         """
         # pylint: disable=protected-access
 
-        if arg is None:
-            arg = {}
+        # work on a copy, the input dictionary must not be modified
+        arg = {} if arg is None else arg.copy()
         if kwargs:
             arg.update(kwargs)
         style_kwargs = arg
